@@ -111,3 +111,41 @@ Fixpoint tcc (s : tscope) (nc : list (ident * Q)) {struct s} : tscope * bool :=
 (* Scope.overwrite: Expression(value) is a Float exactly when the value is a Python / numpy float *)
 Definition toverwrite (s : tscope) (kv : list (ident * (bool * Q))) : tscope :=
   TSMapped s (map (fun p => (fst p, TConst (fst (snd p)) (snd (snd p)))) kv).
+
+(* ---------------------------------------------------------------- __hash__ with number kinds (cf. Hash.v) *)
+Require Import QV.C13.Hash.
+
+Section THash.
+  Variable hN : ident -> Z.
+  Variable hQ : Q -> Z.               (* hash of a Python number: a function of the value *)
+  Variable hK : bool -> Q -> Z.       (* hash of a sympy number: a function of kind and value *)
+  Variable tup : list Z -> Z.
+  Variable fset : list Z -> Z.
+
+  Fixpoint texpr_hash (e : texpr) : Z :=
+    match e with
+    | TConst f q => tup [0%Z; hK f q]
+    | TVar x => tup [1%Z; hN x]
+    | TAdd a b => tup [2%Z; texpr_hash a; texpr_hash b]
+    | TSub a b => tup [3%Z; texpr_hash a; texpr_hash b]
+    | TMul a b => tup [4%Z; texpr_hash a; texpr_hash b]
+    | TDivC a f q => tup [5%Z; texpr_hash a; hK f q]
+    | TMin a b => tup [6%Z; texpr_hash a; texpr_hash b]
+    | TMax a b => tup [7%Z; texpr_hash a; texpr_hash b]
+    | TDiv a b => tup [8%Z; texpr_hash a; texpr_hash b]
+    end.
+
+  Definition tvol_dict (vl : list ident) : list (ident * texpr) := map (fun v => (v, TVar v)) (nodupN vl).
+
+  Fixpoint tscope_hash (s : tscope) : Z :=
+    match s with
+    | TSDict vals vl => tup [dict_hash hN tup fset hQ vals; dict_hash hN tup fset texpr_hash (tvol_dict vl)]
+    | TSMapped o m => tup [tscope_hash o; dict_hash hN tup fset texpr_hash m]
+    | TSRange i n v => tup [tscope_hash i; hN n; hQ v]
+    | TSJoint l => fset ((fix go (l : list (ident * tscope)) : list Z :=
+                            match l with
+                            | [] => []
+                            | (k, sub) :: r => tup [hN k; tscope_hash sub] :: go r
+                            end) l)
+    end.
+End THash.
